@@ -50,6 +50,12 @@ def build(ctx):
     fstree.build(root, nodes)
     for p, uid, gid in (("a.txt", 12345, 54321), ("B", 1, 2), ("sub/f1", 65534, 65534)):
         os.chown(os.path.join(root, p), uid, gid)
+    # modification times at the edges of days, with and without a sub-second part (the comparison is on whole seconds)
+    import calendar
+    for p, (y, mo, d, H, M, S), frac in (("a", (2024, 3, 10, 23, 59, 59), 500000000), ("B", (2024, 3, 10, 12, 0, 0), 0), ("a.txt", (2024, 3, 12, 8, 30, 15), 250000000),
+                                         ("A.TXT", (2024, 3, 11, 0, 0, 0), 1), ("size", (2024, 2, 29, 23, 59, 59), 999999999), ("bin", (2024, 3, 1, 0, 0, 0), 0), ("sub/f0", (2024, 3, 10, 0, 0, 0), 0)):
+        tt = calendar.timegm((y, mo, d, H, M, S)) * 1000000000 + frac
+        os.utime(os.path.join(root, p), ns=(tt, tt))
     return root
 
 
@@ -65,6 +71,8 @@ def attr(n, rel, col):
         return n["nlink"]
     if col == "length(name)":
         return len(n["name"])
+    if col == "modified":
+        return n["mtime"]
     if col == "name":
         return n["name"]
     if col == "lower(name)":
@@ -119,7 +127,7 @@ def run(ctx):
     natoms = 700 if ctx.tier == "quick" else 20000
     atoms = []
     while len(atoms) < natoms:
-        kind = rng.choice(["int", "int", "int", "str", "bool", "bool", "between", "colcol", "unit"])
+        kind = rng.choice(["int", "int", "int", "str", "bool", "bool", "between", "colcol", "unit", "date"])
         opk = rng.choice(list(OPS))
         op = rng.choice(OPS[opk])
         if kind == "int":
@@ -157,6 +165,16 @@ def run(ctx):
             b = rng.random() < 0.5
             w = rng.choice(TRUE_WORDS if b else FALSE_WORDS)
             atoms.append(dict(kind="bool", col=col, opk=opk, text="%s %s %s" % (col, op, w), lit=b))
+        elif kind == "date":
+            import calendar
+            y, mo, d = rng.choice([(2024, 3, 10), (2024, 3, 11), (2024, 3, 12), (2024, 2, 29), (2024, 3, 1), (2024, 3, 9)])
+            if rng.random() < 0.6:
+                a0 = calendar.timegm((y, mo, d, 0, 0, 0))
+                atoms.append(dict(kind="date", col="modified", opk=opk, text="modified %s '%04d-%02d-%02d'" % (op, y, mo, d), lit=(a0, a0 + 86399)))
+            else:
+                H, M, S = rng.choice([(23, 59, 59), (12, 0, 0), (8, 30, 15), (0, 0, 0)])
+                a0 = calendar.timegm((y, mo, d, H, M, S))
+                atoms.append(dict(kind="date", col="modified", opk=opk, text="modified %s '%04d-%02d-%02d %02d:%02d:%02d'" % (op, y, mo, d, H, M, S), lit=(a0, a0)))
         elif kind == "between":
             col = rng.choice(INT_COLS)
             vals = sorted({attr(n, p, col) for p, n in entries})
@@ -194,7 +212,11 @@ def run(ctx):
         exp = set()
         for p, n in entries:
             x = attr(n, p, a["col"])
-            if a["kind"] in ("int", "str", "bool"):
+            if a["kind"] == "date":
+                lo, hi = a["lit"]
+                # === / !== compare with the START of the literal's interval (see C13)
+                t = {"eq": lo <= x <= hi, "eeq": x == lo, "ne": not (lo <= x <= hi), "ene": x != lo, "gt": x > hi, "ge": x >= lo, "lt": x < lo, "le": x <= hi}[a["opk"]]
+            elif a["kind"] in ("int", "str", "bool"):
                 t = cmp(a["opk"], x, a["lit"])
             elif a["kind"] == "between":
                 lo, hi, neg = a["lit"]
